@@ -64,6 +64,7 @@ def plan(tier, seed):
     for ui in range(NUBI):
         shards.append(("getind", ui, 4 if tier == "quick" else 5))
     shards.append(("exact",))
+    shards.append(("callers",))
     shards.append(("rgrefine",))
     k = seed % len(shards)
     return shards[k:] + shards[:k]
@@ -328,6 +329,31 @@ def _run_getind(desc):
     return sh
 
 
+def _run_callers(desc):
+    """the scoring / refinement kernels are declared threadsafe (the GIL is released): pairs of different calls from the C20 call tables as
+    TWO CONCURRENT CALLERS on the schedule-exploring runtime, every interleaving at shared words within 2 preemptions; each call must
+    leave in its arrays what it leaves alone"""
+    from vt.vrt import VRT, callers_interfere
+    from vt import sani
+    sh = Shard()
+    V = VRT()
+    for a, b in sani.threadsafe_pairs(("scoring_kernels",), ("score", "score_and_refine", "refine_assigned"), per_kernel=5):
+        bad, r = callers_interfere(V, a, b)
+        if r is None:
+            continue
+        case = {"kind": "callers", "calls": [a.describe(), b.describe()]}
+        for sched in (bad or [])[:1]:
+            sh.violation("concurrent-callers:%s-calls-interfere" % a.kernel, dict(case, schedule=sched), {"conflict_words": r["filter_size"]})
+        sh.states += r["nodes"]
+        sh.transitions += r["nodes"] - 1 + r["executions"]
+        sh.count("caller_pair_executions", r["total_executions"])
+        sh.evaluations += 1
+        sh.nontrivial += 1
+        sh.outcomes.add(("callers", a.kernel))
+    sh.sample(case, limit=1)
+    return sh
+
+
 def _run_exact(desc):
     """peaks whose squared error is EXACTLY tol^2 in floating point (power-of-two UBI, dyadic g-vectors, dyadic tolerances, so that no
     operation rounds): here "within the tolerance" is decidable, and every kernel must count like the Python reference
@@ -412,7 +438,7 @@ def _run_rgrefine(desc):
 
 
 def run_shard(desc):
-    return {"exact": _run_exact, "rgrefine": _run_rgrefine, "multi": _run_multi, "assigned": _run_assigned, "long": _run_long, "getind": _run_getind}[desc[0]](desc)
+    return {"callers": _run_callers, "exact": _run_exact, "rgrefine": _run_rgrefine, "multi": _run_multi, "assigned": _run_assigned, "long": _run_long, "getind": _run_getind}[desc[0]](desc)
 
 
 def replay(case):
@@ -426,6 +452,8 @@ def replay(case):
     elif case["kind"] == "assigned":
         r = _run_assigned(("assigned", case["ubi"], len(case["peaks"])))
         sh.violations = [v for v in r.violations if v["case"]["labels"] == case["labels"]]
+    elif case["kind"] == "callers":
+        sh.violations = [v for v in _run_callers(("callers",)).violations if v["case"]["calls"] == case["calls"]]
     elif case["kind"] == "exact":
         sh.violations = [v for v in _run_exact(("exact",)).violations if v["case"]["tol"] == case["tol"] and v["case"]["scale"] == case["scale"]]
     elif case["kind"] == "rgrefine":
